@@ -2120,6 +2120,17 @@ class Interp:
 
 
 STR_OF = z3.Function('str_of', PyV, StrS)
+
+
+def _str_of_axioms():
+    # str(x) of a value that is a string is that string
+    v = z3.Const('sov', PyV)
+    from .values import FA as _FA
+    return [_FA([v], z3.Implies(PyV.is_str_(v), STR_OF(v) == PyV.s(v)), patterns=[STR_OF(v)])]
+
+
+from .values import EXTRA_AXIOMS as _EXTRA_AXIOMS   # noqa: E402
+_EXTRA_AXIOMS.append(_str_of_axioms)
 IMPURE_EFFECTS = {'spawn', 'notify', 'event_set', 'yield', 'cancel', 'sleep', 'wait', 'event_wait', 'user_call',
                   'add_node', 'add_edge'}
 
